@@ -31,7 +31,9 @@ def run(ctx, deep=False):
         "(delivered header+message / CRC reject / exception class / incomplete) against the Lean model's `parse`, and the re-sent bytes; "
         "(b) the real socket on the virtual clock with garbage / bad-CRC / truncated frames from the peer: no exception may escape a "
         "task of the client or reach the loop's exception handler, the connection is re-established and a later intact frame is "
-        "delivered; every run replayed against the socket model")
+        "delivered; every run replayed against the socket model; (c) AT4 group/AC status and AT5 zone/AC status payloads (all "
+        "strides >= the known layout) whose independent vendor reading has only defined values must be decoded (same decoder "
+        "instance for thousands of payloads), never rejected")
     total = 0
     for gen in (4, 5):
         total += frame_try.run_gen(ctx, gen, n)
@@ -40,6 +42,18 @@ def run(ctx, deep=False):
         items = _garbage_scripts(ctx.rng, 600 if thorough else 120) + sockcheck.gen_scripts(ctx.seed * 53 + gen, [("faults", 1500 if thorough else 200)])
         good = sockcheck.judge_family(ctx, "C17", items, MONITORS, gen=gen)
         sockcheck.validate_against_model(ctx, good, "AT%d" % gen)
+    # (c) fixed-layout status payloads whose vendor reading has only defined values (incl. strides larger than the known
+    # record) must be decoded, not rejected - every time, not only the first time
+    import sys
+    sys.path.insert(0, __file__.rsplit("/", 1)[0])
+    import c05
+    keys = [(4, "2B"), (4, "2D"), (5, "C021"), (5, "C023")]
+    tally = c05.judge_spec(ctx, keys, thorough=thorough)
+    for cls, (count, example) in sorted(tally.notes.items()):
+        if "implementation rejects" in cls and "only defined values" in cls:
+            ctx.violation("C17:" + c05.slug(cls), "a status payload with only defined values is rejected instead of decoded from its known prefix: "
+                          "%s (%d cases), e.g. %s" % (cls, count, example[:400]), kind="input", mismatch_class=cls, example=example,
+                          implementation_output=example, spec_verdict="decoded to the vendor reading")
     ctx.assumptions += ["AirTouch 5 byte stuffing (a 0x00 after three 0x55) is not implemented by the package and not modelled (frames are unstuffed on both sides)"]
 
 
